@@ -83,7 +83,7 @@ func (m *Module) enableInlining() {
 	if m.anchors == nil {
 		m.anchors = map[*ssa.Function]bool{}
 	}
-	m.forwardLocalStores()
+	m.liftLocalCells()
 	m.findDeferClosures()
 	inModule := map[*ssa.Function]bool{}
 	for _, fn := range m.Funcs {
